@@ -113,7 +113,7 @@ def main():
     native.build()
     I = engine.make_interp()
     rx = relang.regex_of_static(I, 'PEP440_REGEX')
-    ck.load_alphabet([rx.pattern, c09.SPEC_PATTERN], char_ops=['lower', 'alnum'])
+    ck.load_alphabet([rx.pattern, c09.SPEC_PATTERN], char_ops=['alnum', 'lower', 'ws', 'width'])
     # ---------------- relang: unbounded language inclusion
     t0 = time.time()
     impl = relang.hir_to_re(rx.hir)
